@@ -104,7 +104,7 @@ def classify(rec, b):
     if name == "Reported" and b["pairs"]:
         kinds = sorted({pair_history(rec, b["step"], tuple(pr)) for pr in b["pairs"]})
         return "C09:Reported:%s" % "+".join(kinds)
-    if name in ("IsLatest", "Used", "NoFalseAlarm") and any(
+    if name in ("IsLatest", "Used") and act == "arrive" and any(
             s["act"]["a"] == "garbage" for s in rec["steps"][:b["step"] - 1]):
         return "C09:pubsub:garbage:later-metric-dropped"
     return "C09:%s:%s" % (name, act)
